@@ -76,8 +76,10 @@ CLAIMED = {
          "core, application and node state untouched; the application is restored only from a checked response. The rule before those commits is kept as "
          "refuted regression witnesses replayed on every run. Still refuted (open finding F4): a response passing every check whose frame Reset cannot insert. "
          "Tied to the code by a mutation grammar over valid (block, frame, snapshot) triples from honest histories applied to victims in 5 states and to real Nodes; "
+         "and to STATEFUL victims (sequences of 2-3 interactions on one core / Node: check passes but Restore fails, refused-then-valid, applied-then-second; "
+         "the decision is proved to have no memory: C12_decision_independent_of_history; the model is folded over each sequence); "
          "the tree is REQUIRED to implement the repaired rule",
-         "22 theorems, no axioms; ECDSA outcomes, SHA256 ordinals and the outcome of Hashgraph.Reset are data observed by the harness; a lost repair is named by the "
+         "26 theorems, no axioms; ECDSA outcomes, SHA256 ordinals and the outcome of Hashgraph.Reset are data observed by the harness; a lost repair is named by the "
          "rule diagnostic; open: F4 (needs more than TrustCount known Byzantine signers) and the malformed-signature-map panic pending the C08 repair",
          "Coq decision-rule theorems + regression witnesses + mutation-grammar correspondence (core and node level) + implementation oracle"),
  "C14": ("Proved in Coq for the rule the tree implements (a41e4c4): a response whose verifying signatures all come from keys outside every set the node knows "
